@@ -141,15 +141,16 @@ def _clamp(_):
     return st
 
 
-SEQ_SETS = [['a', 'b', 'label'], ['label', 'c'], ['a', 'r0 AND_REL q0', 'label', 'b'], ['d', 'label', 'a', 'e', 'b'], ['label']]
+SEQ_SETS = [(['a', 'b', 'label'], 'label'), (['label', 'c'], 'label'), (['a', 'r0 AND_REL q0', 'label', 'b'], 'label'), (['d', 'label', 'a', 'e', 'b'], 'label'), (['label'], 'label'),
+            (['a', 'y', 'label'], 'label'), (['a', 'y', 'label'], 'y'), (['a', 'r0 AND_REL q0', 'y', 'label'], 'y')]   # same layout ranked against another label column
 
 
 def seq_call(x):
-    names, heuristic, pairwise, cap = x
+    (names, label), heuristic, pairwise, cap = x
     import pandas as pd
     from outrank import core_ranking as cr
     df = pd.DataFrame({c: [str((i * (j + 2)) % 3) for i in range(3)] for j, c in enumerate(names)})
-    args = harness.make_args(heuristic=heuristic, target_ranking_only='False' if pairwise else 'True', combination_number_upper_bound=cap)
+    args = harness.make_args(heuristic=heuristic, target_ranking_only='False' if pairwise else 'True', combination_number_upper_bound=cap, label_column=label)
     with warnings.catch_warnings():
         warnings.simplefilter('ignore')
         res = cr.mixed_rank_graph(df, args, harness.InlinePool(), harness.NullBar())
